@@ -13,6 +13,33 @@ import (
 
 type symTime struct {
 	year, month, day, hour, min, sec, off *smt.Term
+	// mono: nanoseconds on the model's monotonic clock (nil: unrelated instant)
+	mono *smt.Term
+}
+
+// The model clock: computation takes no time, waiting does. time.Now()
+// returns the current clock value; the clock starts at an arbitrary instant
+// and advances when a timer fires (to its deadline) or the code sleeps.
+func (m *Machine) clock() *smt.Term {
+	if t, ok := m.env["clock"].(*smt.Term); ok {
+		return t
+	}
+	t := m.fresh("clock0", 64)
+	m.assume(m.C.And(m.C.Sle(m.i64(0), t), m.C.Slt(t, m.i64(1<<60))))
+	m.env["clock"] = t
+	return t
+}
+
+func (m *Machine) advanceClockTo(deadline *smt.Term) {
+	cur := m.clock()
+	m.env["clock"] = m.C.Ite(m.C.Slt(cur, deadline), deadline, cur)
+}
+
+// timerFired: a timer channel delivered; time has passed up to its deadline.
+func (m *Machine) timerFired(ch *Chan) {
+	if ch != nil && ch.Timer && ch.Deadline != nil && !ch.Expired {
+		m.advanceClockTo(ch.Deadline)
+	}
 }
 
 func (m *Machine) timeStruct() Struct {
@@ -73,7 +100,9 @@ func vxTime(m *Machine, fr *frame, args []Value) Value {
 func registerTime() {
 	I := intrinsics
 	I["time.Now"] = func(m *Machine, fr *frame, args []Value) Value {
-		return m.newSymTime(func(name string, w int) *smt.Term { return m.fresh("now."+name, w) })
+		v := m.newSymTime(func(name string, w int) *smt.Term { return m.fresh("now."+name, w) })
+		m.symTimeOf(v).mono = m.clock()
+		return v
 	}
 	acc := func(sel func(*symTime) *smt.Term, name string) NativeFn {
 		return func(m *Machine, fr *frame, args []Value) Value {
@@ -99,10 +128,61 @@ func registerTime() {
 	}
 	I["(time.Time).Unix"] = func(m *Machine, fr *frame, args []Value) Value { return m.fresh("unix", 64) }
 	I["(time.Time).UnixNano"] = func(m *Machine, fr *frame, args []Value) Value { return m.fresh("unixnano", 64) }
-	I["time.Since"] = func(m *Machine, fr *frame, args []Value) Value { return m.fresh("since", 64) }
-	I["(time.Time).Sub"] = func(m *Machine, fr *frame, args []Value) Value { return m.fresh("sub", 64) }
-	I["time.After"] = func(m *Machine, fr *frame, args []Value) Value { return &Chan{Timer: true, Name: "time.After"} }
-	I["time.Sleep"] = func(m *Machine, fr *frame, args []Value) Value { return nil }
+	mono := func(m *Machine, v Value) *smt.Term {
+		if st := m.symTimeOf(v); st != nil {
+			return st.mono
+		}
+		return nil
+	}
+	I["time.Since"] = func(m *Machine, fr *frame, args []Value) Value {
+		if t := mono(m, args[0]); t != nil {
+			return m.C.Sub(m.clock(), t)
+		}
+		return m.fresh("since", 64)
+	}
+	I["time.Until"] = func(m *Machine, fr *frame, args []Value) Value {
+		if t := mono(m, args[0]); t != nil {
+			return m.C.Sub(t, m.clock())
+		}
+		return m.fresh("until", 64)
+	}
+	I["(time.Time).Sub"] = func(m *Machine, fr *frame, args []Value) Value {
+		a, b := mono(m, args[0]), mono(m, args[1])
+		if a != nil && b != nil {
+			return m.C.Sub(a, b)
+		}
+		return m.fresh("sub", 64)
+	}
+	I["(time.Time).Add"] = func(m *Machine, fr *frame, args []Value) Value {
+		v := m.newSymTime(func(name string, w int) *smt.Term { return m.fresh("add."+name, w) })
+		if t := mono(m, args[0]); t != nil {
+			m.symTimeOf(v).mono = m.C.Add(t, args[1].(*smt.Term))
+		}
+		return v
+	}
+	cmp := func(f func(c *smt.Ctx, a, b *smt.Term) *smt.Term, name string) NativeFn {
+		return func(m *Machine, fr *frame, args []Value) Value {
+			a, b := mono(m, args[0]), mono(m, args[1])
+			if a != nil && b != nil {
+				return f(m.C, a, b)
+			}
+			return m.fresh(name, 0)
+		}
+	}
+	I["(time.Time).After"] = cmp(func(c *smt.Ctx, a, b *smt.Term) *smt.Term { return c.Slt(b, a) }, "after")
+	I["(time.Time).Before"] = cmp(func(c *smt.Ctx, a, b *smt.Term) *smt.Term { return c.Slt(a, b) }, "before")
+	I["time.After"] = func(m *Machine, fr *frame, args []Value) Value {
+		d := args[0].(*smt.Term)
+		ch := &Chan{Timer: true, Name: "time.After", Deadline: m.C.Add(m.clock(), d)}
+		// a timer created with a duration that is not positive is ready at once
+		ch.Expired = m.Branch(m.C.Sle(d, m.i64(0)))
+		return ch
+	}
+	I["time.Sleep"] = func(m *Machine, fr *frame, args []Value) Value {
+		d := args[0].(*smt.Term)
+		m.advanceClockTo(m.C.Add(m.clock(), m.C.Ite(m.C.Slt(m.i64(0), d), d, m.i64(0))))
+		return nil
+	}
 }
 
 func (m *Machine) opaqueMethod(o *Opaque, meth *types.Func) Value {
